@@ -316,3 +316,19 @@ package node
 //@   requires n != nil && n.core != nil && n.core.hg != nil && n.conf != nil && n.core.validators != nil
 //@   ensures[too-many] len(old(n.core.hg.UndeterminedEvents)) - old(n.initialUndeterminedEvents) > old(n.conf.SuspendLimit) * len(old(n.core.validators.ByPubKey)) ==> __called("Suspend")
 //@   ensures[evicted]  old(n.core.hg.LastConsensusRound) != nil && old(n.core.removedRound) > 0 && old(n.core.removedRound) > old(n.core.acceptedRound) && old(*n.core.hg.LastConsensusRound) >= old(n.core.removedRound) ==> __called("Suspend")
+
+// After a bootstrap or a fast-forward the core continues its own chain from the creator's last stored event: head is
+// that event's hash and seq its index, or ("", -1) when the node has no event (or is not in the repertoire) yet.
+//@ func (c *core) setHeadAndSeq() error
+//@   requires c != nil
+//@   modifies c.head, c.seq, hg.G_miss(c.hg.Store)
+//@   ensures[failed] ret0 != nil ==> c.head == old(c.head) && c.seq == old(c.seq)
+//@   ensures[head]   ret0 == nil ==> (c.head == "" && c.seq == -1) || (c.head != "" && __in(c.head, hg.G_events(c.hg.Store)) && c.seq == hg.G_events(c.hg.Store)[c.head].Body.Index)
+//@   call LastEventFrom assert[own-key] __argT[string](0) == c.validator.PublicKeyHex()
+
+// A join/leave request enters the internal-transaction pool at the end, behind everything already pending.
+//@ func (c *core) addInternalTransaction(tx hg.InternalTransaction) *joinPromise
+//@   requires c != nil && c.promises != nil
+//@   modifies c.promises[*], c.internalTransactionPool
+//@   ensures[queued] len(c.internalTransactionPool) == old(len(c.internalTransactionPool)) + 1 && __eq(c.internalTransactionPool[len(c.internalTransactionPool)-1], tx) && (forall k int :: 0 <= k && k < old(len(c.internalTransactionPool)) ==> __eq(c.internalTransactionPool[k], old(c.internalTransactionPool)[k]))
+//@   ensures[promise] ret0 != nil
